@@ -297,20 +297,22 @@ class Gen:
         return ["str.in_re", subj, rx]
 
 
+def gen_value(rnd):
+    c = rnd.randint(0, 9)
+    if c <= 2:
+        return _pick(rnd, NUMS)
+    elif c <= 5:
+        return _pick(rnd, COMMON)
+    elif c == 6 and rnd.randint(0, 3) == 0:
+        return _pick(rnd, ESC_LIKE)
+    return _pick(rnd, STRS)
+
+
 def gen_case_term(rnd):
     nv = _pick(rnd, [0, 1, 1, 1, 2, 2, 3])
     vals = {}
     for i in range(nv):
-        c = rnd.randint(0, 9)
-        if c <= 2:
-            v = _pick(rnd, NUMS)
-        elif c <= 5:
-            v = _pick(rnd, COMMON)
-        elif c == 6 and rnd.randint(0, 3) == 0:
-            v = _pick(rnd, ESC_LIKE)
-        else:
-            v = _pick(rnd, STRS)
-        vals["v%d" % i] = v
+        vals["v%d" % i] = gen_value(rnd)
     g = Gen(rnd, vals)
     depth = _pick(rnd, [1, 2, 2, 3, 3, 3, 4])
     term = g.gen(B, depth, root=True)
